@@ -1142,3 +1142,103 @@ def stale_rep_area(chk, db, prefixes, rule="STALEREP"):
                           "group never assigns it: later groups are compared with the first group's element"
                           % (astx.loc(f, lp), name), {"where": astx.loc(f)})
     return n
+
+
+# ---- FIELDSWAP: a member swap of a plain aggregate exchanges member by member ---------------------------------------------------
+def check_field_swap(db, f):
+    """pair::swap ([pairs.pair]: "swaps first with p.first and second with p.second"): for reference members a whole-object
+    exchange (`other = exchange(*this, move(other))`) copies through the references and both objects end up with one side's
+    values. Every data member of the record is mentioned as `other.<member>` in the body.
+    returns None | list of members never exchanged individually"""
+    if f.get("body") is None or f["n"] != "swap" or len(f["params"]) != 1 or not f.get("record"):
+        return None
+    rec = db.record(f["record"])
+    if rec is None:
+        return None
+    fields = [fd["n"] for fd in rec.get("fields", []) if fd.get("n")]
+    if len(fields) < 2 or rec.get("bases"):
+        return None
+    other = f["params"][0]["n"]
+    touched = set()
+    for x in astx.all_exprs(f, into_lambdas=True):
+        if x.get("k") == "mem" and x.get("n") in fields:
+            b = astx.strip_casts(x.get("b")) if x.get("b") is not None else None
+            if b is not None and b.get("k") == "ref" and b.get("n") == other:
+                touched.add(x["n"])
+    return [m for m in fields if m not in touched]
+
+
+def field_swap_area(chk, db, prefixes, rule="FIELDSWAP"):
+    n = 0
+    for f in db.funcs:
+        if f.get("body") is None or not any(f["file"].startswith(p) for p in prefixes):
+            continue
+        r = check_field_swap(db, f)
+        if r is None:
+            continue
+        n += 1
+        construct = astx.sig(f)
+        chk.instance(rule)
+        chk.obligation(rule, construct, not r)
+        if r:
+            chk.violation(rule, construct, "members-not-exchanged",
+                          "%s: swap never exchanges the member(s) %s with the other object's individually; a whole-object exchange "
+                          "assigns through reference members, so pair<T&, U&>::swap leaves both referenced objects with one side's "
+                          "values" % (astx.loc(f), ", ".join(r)), {"where": astx.loc(f)})
+    return n
+
+
+# ---- REFQMOVE: an rvalue-qualified accessor hands its members on as rvalues --------------------------------------------------
+def check_refq_move(f):
+    """A member function qualified `&&` (or `const&&`) that returns a reference gives access to a sub-object of an expiring
+    object: the member it returns or indexes further is wrapped in etl::move (or forward / static_cast<T&&>), as in its `&`
+    sibling it is not. A bare member in the returned expression makes `move(v)[i]` an lvalue: copies instead of moves.
+    returns None | list of member nodes returned bare"""
+    if f.get("body") is None or f.get("refq") not in ("&&", "const &&", "const&&") or not f.get("record"):
+        return None
+    ret = (f.get("ret") or "")
+    if "&&" not in ret and "decltype(auto)" not in ret and "auto" not in ret:
+        return None
+    out = []
+    subject = False
+    for st in astx.walk_stmts(f["body"]):
+        if st.get("k") != "return" or st.get("e") is None:
+            continue
+        wrapped = set()
+        for x in astx.walk_expr(st["e"]):
+            if x.get("k") == "call" and astx.callee(x)[0] in ("move", "forward", "forward_like"):
+                for y in astx.walk_expr(x):
+                    wrapped.add(id(y))
+            if x.get("k") == "cast" and "&&" in (x.get("ty") or ""):
+                for y in astx.walk_expr(x):
+                    wrapped.add(id(y))
+        for x in astx.walk_expr(st["e"]):
+            if x.get("k") == "mem" and x.get("dk") == "field" and (x.get("b") is None or astx.is_this(x.get("b"))):
+                subject = True
+                if id(x) not in wrapped:
+                    out.append(x)
+            if x.get("k") == "ref" and x.get("d") in ("field", "member"):
+                subject = True
+                if id(x) not in wrapped:
+                    out.append(x)
+    return out if subject else None
+
+
+def refq_move_area(chk, db, prefixes, rule="REFQMOVE"):
+    n = 0
+    for f in db.funcs:
+        if f.get("body") is None or not any(f["file"].startswith(p) for p in prefixes):
+            continue
+        r = check_refq_move(f)
+        if r is None:
+            continue
+        n += 1
+        construct = astx.sig(f)
+        chk.instance(rule)
+        chk.obligation(rule, construct, not r)
+        for node in r[:1]:
+            chk.violation(rule, construct, "member-returned-as-lvalue",
+                          "%s: the `&&`-qualified accessor hands `%s` on without etl::move: the sub-object of an expiring object is "
+                          "given out as an lvalue, so a move from `std::move(obj)` copies and a visitor sees T& instead of T&&"
+                          % (astx.loc(f, node), astx.show(node, 30)), {"where": astx.loc(f)})
+    return n
